@@ -185,7 +185,25 @@ def rule_rows(repo, rule):
     ci = repo.cls(AR, "Array")
     gi, si = ci.methods["__getitem__"], ci.methods["__setitem__"]
     arm = secret_arm(gi)
-    wraps = [s for s in (arm.body if arm else []) if isinstance(s, ast.If) and "isinstance(ret, Array)" in norm(s.test) and "ArrayRow(" in norm(s.body)]
+    # the value read (whatever the local is called) is wrapped when it is a row:  if isinstance(X, Array): X = ArrayRow(X)
+    wraps = []
+    for s in (arm.body if arm else []):
+        if isinstance(s, ast.If) and isinstance(s.test, ast.Call) and norm(s.test.func) == "isinstance" and len(s.test.args) == 2 \
+                and isinstance(s.test.args[0], ast.Name) and norm(s.test.args[1]) == "Array":
+            x_ = s.test.args[0].id
+            if any(isinstance(b, ast.Assign) and norm(b.targets[0]) == x_ and norm(b.value) == "ArrayRow(%s)" % x_ for b in s.body) and any(
+                    isinstance(r, ast.Return) and r.value is not None and norm(r.value) == x_ for r in ast.walk(arm)):
+                wraps.append(s)
+        elif isinstance(s, ast.Assign) and isinstance(s.value, ast.IfExp) and isinstance(s.targets[0], ast.Name):
+            x_ = s.targets[0].id
+            if norm(s.value.test) == "isinstance(%s, Array)" % x_ and norm(s.value.body) == "ArrayRow(%s)" % x_ and norm(s.value.orelse) == x_:
+                wraps.append(s)
+        elif isinstance(s, ast.Return) and isinstance(s.value, ast.IfExp) and isinstance(s.value.orelse, ast.Name):
+            x_ = s.value.orelse.id       # return ArrayRow(x) if isinstance(x, Array) else x
+            if norm(s.value.test) == "isinstance(%s, Array)" % x_ and norm(s.value.body) == "ArrayRow(%s)" % x_:
+                wraps.append(s)
+            elif norm(s.value.test) == "not isinstance(%s, Array)" % x_ and norm(s.value.body) == x_:
+                pass
     if wraps:
         rule.ok(gi.loc(wraps[0]), gi.fq, norm(wraps[0])[:90], "a row read at a secret index is a read-only view")
     else:
